@@ -8,7 +8,9 @@
 mod engine;
 mod matcher;
 mod c04;
+mod c05;
 mod c08;
+mod proc;
 mod c11;
 mod unicode_c;
 
@@ -20,6 +22,7 @@ fn property(id: &str) -> Option<Property> {
     Some(match id {
         "C01" | "C02" | "C03" => matcher::property(id),
         "C04" => c04::property(),
+        "C05" => c05::property(),
         "C08" => c08::property(),
         "C11" => c11::property(),
         _ => return None,
